@@ -75,18 +75,26 @@ def r_panic_tools(ctx, which):
             st.cells[frame.cell(2)] = Int(1, 8, 64, False)
         runs.append(("tools::SignedVint::as_signed_vint_with_length", {}, width_setup, A_WIDTH))
     else:
-        runs += [("tools::arr_to_u64", {}, None, None), ("tools::arr_to_i64", {}, None, None), ("tools::arr_to_f64", {}, None, None)]
-    for fn, cp, setup, assumption in runs:
+        # complete partition of the slice length: 0, 1, ..., 9 and >= 10 (the decoders reject everything above 8)
+        for fn in ("tools::arr_to_u64", "tools::arr_to_i64", "tools::arr_to_f64"):
+            for L in range(0, 10):
+                runs.append((fn, {}, _slice_len_setup(L, L), None, "len=%d" % L))
+            runs.append((fn, {}, _slice_len_setup(10, ISIZE_MAX), None, "len>=10"))
+    for run in runs:
+        fn, cp, setup, assumption = run[:4]
+        label = run[4] if len(run) > 4 else None
         body = find_one(prog, fn)
         eng = _engine(prog)
         absrun.analyze(eng, body, cp, setup)
-        rep.instance("%s%s" % (fn, cp or ""))
+        rep.instance("%s%s%s" % (fn, cp or "", " [%s]" % label if label else ""))
         rep.analysed.append(body.key)
         if assumption:
             rep.assumed.append(assumption)
         if "LENGTH" in cp and A_WIDTH not in rep.assumed:
             rep.assumed.append(A_WIDTH)
         suffix = "" if not cp else "<%s>" % ",".join("%s=%s" % kv for kv in sorted(cp.items()))
+        if label:
+            suffix += "[%s]" % label
         n = obligation_findings(rep, eng, prefix="PANIC%s" % suffix)
         if eng.unmodelled:
             rep.notes.append("unmodelled calls in %s: %s" % (fn, dict(eng.unmodelled)))
